@@ -4,7 +4,7 @@
 #   dev.sh <crate> <args...>         e.g. dev.sh vf-sim C06 --tier quick
 # Output (evidence, replays) goes to /var/tmp/dev/out. Not used by any registered check.
 set -eu
-D=/var/tmp/dev
+D="${DEV_DIR:-/var/tmp/dev}"
 mkdir -p $D/out/target $D/repo
 # HEAD (plus DEV_PATCH=<file>: a seeded change / mutant tried on the private copy, never on /repo) is staged first and then
 # synchronised by checksum, so that exactly the files whose content changed get a new mtime (cargo decides by mtime)
